@@ -45,7 +45,7 @@ fn main() {
                                 let c = &v["coverage"];
                                 r.transitions += c["transitions"].as_u64().unwrap_or(0);
                                 r.states += c["states"].as_u64().unwrap_or(0);
-                                extra = serde_json::json!({"companion_run": {"what": arg_after(&args, "--extra-what", "companion run"), "transitions": c["transitions"], "states": c["states"], "violating_inputs": c["violating_inputs"], "phases": c["phases"], "notes": c["notes"], "result_digest": c["result_digest"], "wall_s": v["wall_s"]}});
+                                extra = serde_json::json!({"companion_run": {"what": arg_after(&args, "--extra-what", "companion run"), "transitions": c["transitions"], "states": c["states"], "violating_inputs": c["violating_inputs"], "phases": c["phases"], "notes": c["notes"], "wall_s": v["wall_s"]}});
                             }
                         }
                     }
